@@ -230,7 +230,7 @@ def value_must_be_consumed(view, start, local, path, depth=0):
 
 
 def run(facts, report, config, scope_prefix=("modular::", "<modular::"), exclude_prefix=(), table="c08.toml",
-        auto_wrapping=False, counter="carry_returning_calls_in_modular", stale_check=True):
+        auto_wrapping=False, counter="carry_returning_calls_in_modular", stale_check=True, body_filter=None):
     """Reviewed drops are keyed by (function, callee) with a count `drops` (default 1): an edit that adds or
     reorders *consumed* carry calls changes nothing; one that drops a further carry exceeds the count."""
     tab = load_table(table)
@@ -240,6 +240,8 @@ def run(facts, report, config, scope_prefix=("modular::", "<modular::"), exclude
         if scope_prefix is not None and not b["id"].startswith(scope_prefix):
             continue
         if exclude_prefix and b["id"].startswith(exclude_prefix):
+            continue
+        if body_filter is not None and not body_filter(b):
             continue
         view = mir.BodyView(b)
         dropped = {}
